@@ -4,8 +4,7 @@ C04, logical and / or: `and_or` (Model/Logic.lean, the model of property C28) on
 and otherwise the sorted list whose members are the contributions of the arguments; both are
 invariant under permutation (`sorted_ext` of Lemmas/C28Order.lean).
 -/
-import SymVerif.Lemmas.C28Truth
-import SymVerif.Lemmas.C28Order
+import SymVerif.Lemmas.C28Canon2
 
 namespace SymVerif.C04L
 open SymVerif.Logic SymVerif.Logic.B SymVerif.C28
@@ -115,5 +114,97 @@ of the arguments -/
 theorem andOr_perm_aux (isOr : Bool) {s₁ s₂ : List B} (hp : s₁.Perm s₂) : andOr isOr s₁ = andOr isOr s₂ := by
   unfold andOr
   rw [collect_perm isOr hp]
+
+/-! ### grouping: a nested call of the same connective is flattened -/
+
+theorem collect_append (isOr : Bool) : ∀ (s₁ s₂ args : List B),
+    collect isOr (s₁ ++ s₂) args = (match collect isOr s₁ args with
+      | none => none
+      | some a => collect isOr s₂ a)
+  | [], s₂, args => by simp [collect]
+  | a :: s₁, s₂, args => by
+    rw [List.cons_append, collect_cons, collect_cons]
+    cases step isOr a args with
+    | none => rfl
+    | some args' => exact collect_append isOr s₁ s₂ args'
+
+theorem insAll_sorted {l : List B} (h : Sorted l) : insAll l [] = l := by
+  apply sorted_ext _ _ (sorted_insAll l [] sorted_nil) h
+  intro x
+  simp [mem_insAll]
+
+theorem collect_mono (isOr : Bool) {s args r : List B} (h : collect isOr s args = some r)
+    (hs : Sorted args) : ∀ x ∈ args, x ∈ r := fun x hx =>
+  ((collect_some isOr s args r h hs).2 x).mpr (Or.inl hx)
+
+theorem hasCompl_mono {l r : List B} (h : ∀ x ∈ l, x ∈ r) (hc : hasCompl l = true) : hasCompl r = true := by
+  simp only [hasCompl, List.any_eq_true, decide_eq_true_eq] at hc ⊢
+  obtain ⟨a, ha, hn⟩ := hc
+  exact ⟨a, h a ha, h _ hn⟩
+
+/-- the 0 / 1 / n result of `and_or` -/
+def finishAO (o : Bool) (args : List B) : B :=
+  match args with
+  | [] => const (!o)
+  | [a] => a
+  | _ => if o then .or args else .and args
+
+/-- `and_or` after its first loop -/
+def tailAO (o : Bool) (c : Option (List B)) : B :=
+  match c with
+  | none => const o
+  | some args => if hasCompl args then const o else finishAO o args
+
+theorem andOr_eq_tail (o : Bool) (s : List B) : andOr o s = tailAO o (collect o s []) := by
+  unfold andOr tailAO finishAO
+  cases collect o s [] with
+  | none => rfl
+  | some args =>
+    simp only []
+    split
+    · rfl
+    · match args with
+      | [] => rfl
+      | [a] => rfl
+      | a :: b :: t => rfl
+
+/-- `and(and(s₁), s₂…) = and(s₁ ++ s₂)`, same for `or`: the result of a nested call of the same
+connective contributes exactly the arguments the flat call collects from `s₁` -/
+theorem andOr_flatten_aux (o : Bool) (s₁ s₂ : List B) (h₁ : ∀ a ∈ s₁, wf a = true) :
+    andOr o (andOr o s₁ :: s₂) = andOr o (s₁ ++ s₂) := by
+  rw [andOr_eq_tail o (andOr o s₁ :: s₂), andOr_eq_tail o (s₁ ++ s₂), collect_cons, collect_append,
+    andOr_eq_tail o s₁]
+  have habs : step o (const o) [] = none := by cases o <;> simp [step, const]
+  cases hc1 : collect o s₁ [] with
+  | none =>
+    simp only [tailAO, habs]
+  | some a₁ =>
+    have hinv := collect_inv o s₁ [] h₁ ⟨sorted_nil, by simp⟩ a₁ hc1
+    by_cases hcomp : hasCompl a₁ = true
+    · simp only [tailAO, hcomp, if_true, habs]
+      cases hc2 : collect o s₂ a₁ with
+      | none => rfl
+      | some a₂ =>
+        simp only []
+        rw [if_pos (hasCompl_mono (collect_mono o hc2 hinv.1) hcomp)]
+    · have hcomp' : hasCompl a₁ = false := by simpa using hcomp
+      have hstep : step o (finishAO o a₁) [] = some a₁ := by
+        match a₁, hinv with
+        | [], _ => cases o <;> simp [finishAO, step, const]
+        | [a], hinv =>
+          have ha := hinv.2 a List.mem_cons_self
+          have hk : sameKind o a = false := ha.2.2
+          have hcst : C28.isConst a = false := ha.2.1
+          cases a <;> cases o <;>
+            simp_all [finishAO, step, sameKind, C28.isConst, C28.isOr, C28.isAnd, ins, insSorted]
+        | a :: b :: t, hinv =>
+          have := insAll_sorted hinv.1
+          cases o <;> simp [finishAO, step, this]
+      simp only [tailAO, hcomp', Bool.false_eq_true, if_false, hstep]
+
+theorem andOr_flatten2_aux (o : Bool) (a b c : B) (ha : wf a = true) (hb : wf b = true) :
+    andOr o [andOr o [a, b], c] = andOr o [a, b, c] := by
+  have := andOr_flatten_aux o [a, b] [c] (by intro x hx; simp at hx; rcases hx with rfl | rfl <;> assumption)
+  simpa using this
 
 end SymVerif.C04L
